@@ -20,6 +20,7 @@ Supports expressions like:
 import ast
 import re
 import statistics
+import types
 import warnings
 from datetime import date as date_type
 from typing import Any, Dict, List, Optional, Set, Callable, Union
@@ -916,7 +917,12 @@ class TransactionEvaluator:
         raise ExpressionError(f"Cannot evaluate node type: {type(node).__name__}")
 
     def _eval_Expression(self, node: ast.Expression) -> Any:
-        return self.evaluate(node.body)
+        value = self.evaluate(node.body)
+        # A bare generator expression is lazy: materialize it so that callers (tags,
+        # fields, let bindings, transforms) receive its values, not a generator object.
+        if isinstance(value, types.GeneratorType):
+            value = list(value)
+        return value
 
     def _eval_Constant(self, node: ast.Constant) -> Any:
         return node.value
@@ -1236,8 +1242,10 @@ class TransactionEvaluator:
         if func is None:
             raise ExpressionError(f"Unknown function: {func_name}")
 
-        # Evaluate arguments
+        # Evaluate arguments (generator expressions are materialized: the documented
+        # functions work on values, and str() of a generator object is not a value)
         args = [self.evaluate(arg) for arg in node.args]
+        args = [list(arg) if isinstance(arg, types.GeneratorType) else arg for arg in args]
 
         # Call the function
         return func(*args)
